@@ -55,6 +55,17 @@ class ContinueSig(Exception):
     pass
 
 
+class Bottom:
+    """result of a partial operation (index out of range, missing key) inside a contract clause:
+    comparisons with it are False, so the clause simply does not hold there"""
+
+    def __repr__(self):
+        return "BOTTOM"
+
+
+BOTTOM = Bottom()
+
+
 class MaybeUnbound:
     """local variable that may be unbound after a havoc (loop rule)"""
 
@@ -423,6 +434,18 @@ class InterpCore:
 
     def ev_Subscript(self, e, fr):
         obj = self.ev(e.value, fr)
+        if fr.spec:
+            if obj is BOTTOM:
+                return BOTTOM
+            try:
+                return self._ev_subscript(e, obj, fr)
+            except PyRaise as pr:
+                if issubclass(pr.exc.cls, (IndexError, KeyError, TypeError)):
+                    return BOTTOM
+                raise
+        return self._ev_subscript(e, obj, fr)
+
+    def _ev_subscript(self, e, obj, fr):
         if isinstance(e.slice, ast.Slice):
             lo = self.ev(e.slice.lower, fr) if e.slice.lower is not None else None
             hi = self.ev(e.slice.upper, fr) if e.slice.upper is not None else None
@@ -447,9 +470,18 @@ class InterpCore:
 
     def ev_BoolOp(self, e, fr):
         if fr.spec:
-            vals = [ops.truth(self.ctx, self.ev(v, fr)) for v in e.values]
-            zs = [z3.BoolVal(v) if isinstance(v, bool) else v for v in vals]
-            return mk_bool(z3.And(*zs) if isinstance(e.op, ast.And) else z3.Or(*zs))
+            is_and = isinstance(e.op, ast.And)
+            zs = []
+            for sub in e.values:
+                t = ops.truth(self.ctx, self.ev(sub, fr))
+                if isinstance(t, bool):
+                    if t != is_and:  # False in a conjunction / True in a disjunction decides it
+                        return t
+                    continue
+                zs.append(t)
+            if not zs:
+                return is_and
+            return mk_bool(z3.And(*zs) if is_and else z3.Or(*zs))
         # python semantics: value of the deciding operand, short-circuit with forking
         v = None
         for i, sub in enumerate(e.values):
